@@ -1384,7 +1384,16 @@ impl<F: FmtX, A: Atomicity> Pool<F, A> {
                 });
                 match r {
                     Err(p) => bad!("panic", "into_send round trip panicked: {p}"),
-                    Ok(b) => self.real[s as usize] = Some(b),
+                    Ok(b) => {
+                        // what makes a SendTendril Send: its buffer is referenced by nothing else
+                        let shared = b.is_shared() || self.real.iter().flatten().any(|o| b.is_shared_with(o));
+                        mon.enter();
+                        self.real[s as usize] = Some(b);
+                        mon.leave();
+                        if shared {
+                            bad!("send-not-unique", "the tendril that went through SendTendril still shares its buffer with another tendril");
+                        }
+                    },
                 }
             },
             Op::PushChar(s, c) => {
